@@ -52,6 +52,14 @@ type Connection struct {
 	// Message queue for backpressure handling
 	messageQueue [][]byte
 	queueMu      sync.Mutex
+
+	// closed is set (under closeMu) when the hub closes the send channel;
+	// done is closed first to release senders blocked on a full queue
+	closed    bool
+	closeMu   sync.RWMutex
+	done      chan struct{}
+	doneOnce  sync.Once
+	closeOnce sync.Once
 }
 
 // RoutePattern returns the route pattern this connection matched
@@ -81,6 +89,53 @@ func NewConnection(id string, conn *websocket.Conn, hub *Hub) *Connection {
 		PathParams:   make(map[string]string),
 		lastPongTime: time.Now(),
 		messageQueue: make([][]byte, 0),
+	}
+}
+
+// doneCh returns the channel that is closed when the connection is detached
+func (c *Connection) doneCh() chan struct{} {
+	c.doneOnce.Do(func() { c.done = make(chan struct{}) })
+	return c.done
+}
+
+// detach closes the outbound queue and removes the connection from all rooms.
+// It is called by the hub when the connection is unregistered or dropped.
+func (c *Connection) detach(rm *RoomManager) {
+	c.closeOnce.Do(func() { close(c.doneCh()) })
+	c.closeMu.Lock()
+	if !c.closed {
+		c.closed = true
+		close(c.send)
+	}
+	c.closeMu.Unlock()
+
+	// roomsMu orders this against a concurrent JoinRoom, which checks closed
+	// while holding it
+	c.roomsMu.Lock()
+	rm.RemoveConnectionFromAllRooms(c)
+	c.roomsMu.Unlock()
+}
+
+// isClosed reports whether the hub has closed this connection's queue
+func (c *Connection) isClosed() bool {
+	c.closeMu.RLock()
+	defer c.closeMu.RUnlock()
+	return c.closed
+}
+
+// trySend queues a message without blocking; it reports false when the
+// queue is full or the connection is closed
+func (c *Connection) trySend(message []byte) bool {
+	c.closeMu.RLock()
+	defer c.closeMu.RUnlock()
+	if c.closed {
+		return false
+	}
+	select {
+	case c.send <- message:
+		return true
+	default:
+		return false
 	}
 }
 
@@ -230,6 +285,12 @@ func (c *Connection) WritePump() {
 func (c *Connection) Send(message []byte) error {
 	config := c.hub.config
 
+	c.closeMu.RLock()
+	defer c.closeMu.RUnlock()
+	if c.closed {
+		return ErrConnectionClosed
+	}
+
 	select {
 	case c.send <- message:
 		return nil
@@ -262,8 +323,12 @@ func (c *Connection) Send(message []byte) error {
 			fallthrough
 		default:
 			// Block until space is available or connection closes
-			c.send <- message
-			return nil
+			select {
+			case c.send <- message:
+				return nil
+			case <-c.doneCh():
+				return ErrConnectionClosed
+			}
 		}
 	}
 }
@@ -304,6 +369,11 @@ func (c *Connection) JoinRoom(roomName string) {
 	// view and the room's membership change together
 	c.roomsMu.Lock()
 	defer c.roomsMu.Unlock()
+
+	if c.isClosed() {
+		log.Printf("[WS] Connection %s is closed, not joining room %s", c.ID, roomName)
+		return
+	}
 
 	// Add to room manager synchronously to ensure the room exists
 	// before any subsequent operations (like broadcast_to_room)
